@@ -37,8 +37,10 @@ Definition frame_ok (c : cmd) (a b : eds_annots) : bool :=
 
 Definition chk (c : case) : list N :=
   match c with
-  | W (CErs sn obs) => code_if (step_ok_ers sn obs) 1 ++ C08Check.mon_ers sn obs
-  | W (CEds sn obs) => code_if (step_ok_eds sn obs) 1 ++ C08Check.mon_eds sn obs ++ C05Check.mon_eds sn obs ++ C07Check.mon_eds sn obs
+  (* the reconciles that follow the commands obey them: the monitors of C08 (codes +20), C05 (+30) and C07 (+50) *)
+  | W (CErs sn obs) => code_if (step_ok_ers sn obs) 1 ++ map (N.add 20) (C08Check.mon_ers sn obs)
+  | W (CEds sn obs) => code_if (step_ok_eds sn obs) 1 ++ map (N.add 20) (C08Check.mon_eds sn obs) ++
+                       map (N.add 30) (C05Check.mon_eds sn obs) ++ map (N.add 50) (C07Check.mon_eds sn obs)
   | Cmd c oe rs_names rs_conds now obs =>
       let m := run_cmd c oe (fun n => memN n rs_names) in
       (* the model predicts the command *)
